@@ -22,12 +22,14 @@
 static uint8_t stream[STREAM_LEN + 4];
 
 /* ---- layer below: hands out the next chunk -------------------------------------------------------------- */
-static size_t rd_pos, rd_chunk[3];
+static size_t rd_pos, rd_released, rd_step[2];
 static int rd_call;
 static ssize_t
 h_read(coap_session_t *session, uint8_t *data, size_t datalen) {
   (void)session;
-  size_t n = rd_call < 3 ? rd_chunk[rd_call] : 0;
+  /* bytes released by the transport so far but not yet read; a read returns at most the caller's buffer size, the
+   * rest stays queued (as a socket does) and is returned by the next read */
+  size_t n = rd_released - rd_pos;
   rd_call++;
   if (n > datalen) n = datalen;
   if (n) memcpy(data, stream + rd_pos, n);
@@ -93,12 +95,17 @@ run(size_t c1, size_t c2, snap_t *out) {
   ne_sess.type = COAP_SESSION_TYPE_SERVER;
   ne_sess.sock.lfunc[COAP_LAYER_SESSION].l_read = h_read;
   ne_sess.mtu = 1152;
-  rd_pos = 0; rd_call = 0;
+#ifdef OVERSIZE
+  /* largest receive size an application can configure (coap_context_set_csm_max_message_size): only the library's
+   * own COAP_DEFAULT_MAX_PDU_RX_SIZE check stands between a declared length and an allocation */
+  ne_sess.csm_rcv_mtu = COAP_DEFAULT_MAX_PDU_RX_SIZE;
+#endif
+  rd_pos = 0; rd_call = 0; rd_released = 0;
   if (c1 == 0) { c1 = c2; c2 = 0; }
-  rd_chunk[0] = c1; rd_chunk[1] = c2; rd_chunk[2] = 0;
   d_count = 0; disc_count = 0;
-  if (c1) coap_read_session(&ne_ctx, &ne_sess, 1000);
-  if (c2 && !disc_count) coap_read_session(&ne_ctx, &ne_sess, 1001);
+  if (c1) { rd_released += c1; coap_read_session(&ne_ctx, &ne_sess, 1000); }
+  if (c2 && !disc_count) { rd_released += c2; coap_read_session(&ne_ctx, &ne_sess, 1001); }
+  VERIF_ASSERT(disc_count || rd_pos == rd_released, "S1 the reader consumes everything the transport has (reads again after a full buffer)");
   out->d_count = d_count;
   out->disc = disc_count;
   {
